@@ -102,12 +102,12 @@ type inliner struct {
 	origBody map[*ast.BlockStmt]*ast.BlockStmt
 	noCopies bool
 	root     *ast.BlockStmt
-	bound   map[types.Object]ast.Expr // parameter of an inlined helper -> argument
-	scope   map[types.Object]ast.Node // parameter of an inlined helper -> the helper's body
-	lits    map[*ast.FuncLit]*core.Fn // literals wrapped as helpers
-	litDone map[*ast.FuncLit]bool     // literals inlined at their only call
-	pkg     *packages.Package
-	pseudo  map[string]*pctx // label of an expanded helper (source normalisation) -> how its exits are rewritten
+	bound    map[types.Object]ast.Expr // parameter of an inlined helper -> argument
+	scope    map[types.Object]ast.Node // parameter of an inlined helper -> the helper's body
+	lits     map[*ast.FuncLit]*core.Fn // literals wrapped as helpers
+	litDone  map[*ast.FuncLit]bool     // literals inlined at their only call
+	pkg      *packages.Package
+	pseudo   map[string]*pctx // label of an expanded helper (source normalisation) -> how its exits are rewritten
 }
 
 // pctx describes one helper expansion made by the loader's source normalisation
